@@ -163,9 +163,17 @@ def _smoke(area, kind):
 
 
 def _known(n, area, kind='plain'):
-    """a construct that is known not to compile: -> 'fails' (expected) / 'compiles' (fixed in this tree)"""
-    r = _syntax(area, kind, extra=['-DAPI_PROBE_KNOWN_%d' % n])
-    return 'compiles' if r['ok'] else 'fails'
+    """a construct that is known not to compile: -> 'fails' (expected) / 'compiles' (fixed in this tree); cached per tree"""
+    extra = ['-DAPI_PROBE_KNOWN_%d' % n]
+    _, flags = C.LIB_KINDS[kind]
+    stamp = os.path.join(_lib(kind), 'api_probe_%s-%s.known%d' % (area, _key(area, list(flags) + extra), n))
+    if os.path.exists(stamp):
+        return open(stamp).read().strip() or 'fails'
+    r = _syntax(area, kind, extra=extra)
+    verdict = 'compiles' if r['ok'] else 'fails'
+    with open(stamp, 'w') as f:
+        f.write(verdict + '\n')
+    return verdict
 
 
 def _cmdline(cmd):
